@@ -104,6 +104,8 @@ def _run_job(args):
     try:
         import importlib
         mod = importlib.import_module(modname)
+        from engine.symseq import SSeq
+        SSeq.NORMALIZE, SSeq.CONST_HASH = True, False  # class-level switches never leak from one job into the next
         res = mod.run_job(job)
     except BaseException as e:  # noqa: BLE001
         res = JobResult.new(job.get("name", "?"))
